@@ -46,14 +46,27 @@ def breaker(rule, schema, pick):
     R = rt.Resolved(schema)
     dyn = [n for n in R.order if R.types[n].cat == "struct" and R.types[n].stiff == rt.DYNAMIC]
     unl = [n for n in R.order if R.types[n].cat == "struct" and R.types[n].stiff == rt.UNLIMITED]
+    # candidates of every flavour: the schema's own dynamic / unlimited structs, and helper definitions whose stiffness
+    # comes about directly, through nesting, through a typedef, or through a dynamic array next to an unlimited tail
+    helpers = {
+        "XDyn": "struct XDyn { u8 d<>; };\n",
+        "XDynNest": "struct XDyn { u8 d<>; };\nstruct XDynNest { XDyn n; u8 t; };\n",
+        "XDynT": "struct XDyn { u8 d<>; };\ntypedef XDyn XDynT;\n",
+        "XDynExt": "struct XDynExt { u8 n; u16 d<@n>; };\n",
+        "XUnl": "struct XUnl { u8 g<...>; };\n",
+        "XUnlNest": "struct XUnl { u8 g<...>; };\nstruct XUnlNest { u32 a; XUnl t; };\n",
+        "XUnlT": "struct XUnl { u8 g<...>; };\ntypedef XUnl XUnlT;\n",
+        "XUnlDyn": "struct XUnl { u8 g<...>; };\nstruct XUnlDyn { u16 ids<>; XUnl t; };\n",
+        "XUnlExt": "struct XUnl { u8 g<...>; };\nstruct XUnlExt { u8 n; u16 ids<@n>; XUnl t; };\n",
+    }
+    dyn = dyn + ["XDyn", "XDynNest", "XDynT", "XDynExt"]
+    unl = unl + ["XUnl", "XUnlNest", "XUnlT", "XUnlDyn", "XUnlExt"]
+    D, U = dyn[pick % len(dyn)], unl[(pick // 7) % len(unl)]
     pre = ""
-    if not dyn:
-        pre += "struct XDyn { u8 d<>; };\n"
-        dyn = ["XDyn"]
-    if not unl:
-        pre += "struct XUnl { u8 g<...>; };\n"
-        unl = ["XUnl"]
-    D, U = dyn[pick % len(dyn)], unl[pick % len(unl)]
+    for name in (D, U):
+        for line in helpers.get(name, "").splitlines(True):
+            if line not in pre:
+                pre += line
     existing = [d["name"] for d in schema["defs"]]
     body = {
         "unlimited-not-last": "struct XB { %s u; u8 after; };" % U,
